@@ -96,7 +96,10 @@ func (e *kvElection) handleValidationFailure(err error) {
 		)...,
 	)
 
-	e.becomeFollower()
+	if !e.becomeFollower() {
+		// another detector already ended this term and ran the callback
+		return
+	}
 
 	e.mu.RLock()
 	onDemote := e.onDemote
